@@ -1,5 +1,6 @@
 import ScriggoV.Lemmas.TypeCheckStmt
 import ScriggoV.Lemmas.Terminating
+import ScriggoV.Model.Assignable
 /-! # C03 — what is proved about the Go typing rules of the fragment
 
 The *model* is `Model/TypeCheck.lean` (the Go specification's typing of expressions and
@@ -373,5 +374,77 @@ example : terminating (.sw .expr true (.cons (.cons (.forS true false (.cons (.b
     (.cons .ret .nil)) .nil)) none = true := by decide
 
 end Terminating
+
+section Assignability
+/-! ## Assignability into interface types (`Model/Assignable.lean`)
+
+The specification's method sets, `implements` and assignability for the universe of the
+assignability matrix (`go/props/c03/assign_matrix.go`), validated against `go/types` on every run
+(`spec_validation: assignability-model-vs-go/types`). What decides whether a comparison result
+may be used where an interface is expected — the rule the seeded regression
+`C03-untyped-bool-to-method-interface` broke in `typechecker.convert` — is stated outright.
+Tied to `scriggo.Build` by the differential matrix only. -/
+open ScriggoV.Assignable hiding ATy
+
+theorem bool_has_no_methods : ATy.bool.methods = [] := rfl
+
+/-- `implements v i` is the specification's clause: `i` is an interface and every method of `i` is
+in the method set of `v`. -/
+theorem implements_iff (v i : ATy) :
+    implements v i = true ↔ ∃ ms, i.underlying = .iface ms ∧ ∀ m ∈ ms, m ∈ v.methods := by
+  unfold implements
+  cases h : i.underlying <;> simp [List.all_eq_true]
+
+/-- A non-constant untyped boolean value (the result of a comparison) may be used exactly where a
+boolean type or an interface type WITHOUT methods is expected. -/
+theorem untyped_bool_assignable_iff (t : ATy) :
+    AVal.untypedBool.assignableTo t = true ↔ t.underlying = .bool ∨ t.underlying = .iface [] := by
+  unfold AVal.assignableTo implements
+  cases h : t.underlying with
+  | iface ms => cases ms <;> simp [h, bool_has_no_methods]
+  | _ => simp [h]
+
+/-- … in particular never where an interface type with a method (`error`) is expected. -/
+theorem untyped_bool_not_assignable_to_method_interface (t : ATy) (m : String) (ms : List String)
+    (h : t.underlying = .iface (m :: ms)) : AVal.untypedBool.assignableTo t = false := by
+  cases hb : AVal.untypedBool.assignableTo t
+  · rfl
+  · rcases (untyped_bool_assignable_iff t).1 hb with h' | h' <;> simp [h] at h'
+
+/-- A type defined over an interface type has the methods of that interface. -/
+theorem defined_interface_keeps_methods (id : Nat) (ms vms pms : List String) :
+    (ATy.named id (.iface ms) vms pms).methods = ms := rfl
+
+/-- `error`, and `type MyErr error` -/
+def errorT : ATy := .named 0 (.iface ["Error"]) [] []
+def myErr : ATy := .named 1 errorT [] []
+
+example : AVal.untypedBool.assignableTo errorT = false := by decide
+example : AVal.untypedBool.assignableTo (.iface []) = true := by decide
+example : AVal.untypedBool.assignableTo (.named 2 .bool [] []) = true := by decide
+example : AVal.untypedBool.assignableTo .int = false := by decide
+example : errorT.underlying = .iface ("Error" :: []) := rfl
+/-- a pointer-receiver method is in the method set of *T only -/
+example : implements (.ptr (.named 3 (.lit 0) [] ["String"])) (.iface ["String"]) = true
+    ∧ implements (.named 3 (.lit 0) [] ["String"]) (.iface ["String"]) = false := by decide
+
+/-- The full statement "the rule the code applies is the specification's" is FALSE of the code
+today (recorded finding `defined-interface-type-methods-ignored`; `implementsAsCoded` is a
+hand-written transcription of `types.Implements`, the witnesses are replayed on the real Build by
+the harness on every run). -/
+def CodedImplementsIsSpec : Prop :=
+  ∀ (scriggo : ATy → Bool) (v i : ATy), implementsAsCoded scriggo v i = implements v i
+
+theorem codedImplementsIsSpec_false : ¬ CodedImplementsIsSpec := by
+  intro h
+  have := h (fun t => t == myErr) .int myErr
+  revert this
+  decide
+
+/-- the two directions of the finding: `int` "implements" MyErr, MyErr does not "implement" error -/
+example : implementsAsCoded (fun t => t == myErr) .int myErr = true ∧ implements .int myErr = false := by decide
+example : implementsAsCoded (fun t => t == myErr) myErr errorT = false ∧ implements myErr errorT = true := by decide
+
+end Assignability
 
 end ScriggoV.Props.C03
